@@ -6,6 +6,7 @@
 (* case for the Go harness to run through types.Equals / types.Unify.      *)
 (*   P_MODE = "pairs"    all ordered pairs of depth-<=1 types              *)
 (*   P_MODE = "patterns" 2-tuples of patterns against ground 2-tuples      *)
+(*   P_MODE = "pp"       2-tuples of patterns against 2-tuples of patterns  *)
 (*   P_SIZE = 1 (5 atoms) | 2 (8 atoms)                                    *)
 (***************************************************************************)
 EXTENDS YaeTypes, YaeIO
@@ -36,12 +37,17 @@ GS == {TNum, TStr, TList(TNum), TList(TStr), TObj(<<Fld(FA, TNum)>>), TMaybe(TNu
 VARIABLE st
 Mk(x, y) == [x |-> x, y |-> y, u |-> Unify(x, y, EmptyM)]
 
+\* pattern against pattern: 2-tuples sharing variables on both sides (occurs check through bindings)
+PPA == {TVar("a"), TVar("b"), TNum, TList(TVar("a")), TList(TVar("b")), TMaybe(TVar("a")),
+        TObj(<<Fld(FA, TVar("a"))>>), TMap(TVar("a"), TVar("b"))}
 Seeds == IF Univ = "pairs" THEN {[seed |-> x] : x \in D1}
+         ELSE IF Univ = "pp" THEN {[seed |-> TTuple(<<x1, x2>>)] : x1 \in PPA, x2 \in PPA}
          ELSE {[seed |-> TTuple(<<x1, x2>>)] : x1 \in PD1, x2 \in PD1}
 Init == st \in Seeds
 Next == /\ "seed" \in DOMAIN st
         /\ IF Univ = "pairs"
            THEN \E y \in D1 : st' = Mk(st.seed, y)
+           ELSE IF Univ = "pp" THEN \E y1 \in PPA, y2 \in PPA : st' = Mk(st.seed, TTuple(<<y1, y2>>))
            ELSE \E y1 \in GS, y2 \in GS : st' = Mk(st.seed, TTuple(<<y1, y2>>))
 
 IsCase == "x" \in DOMAIN st
@@ -55,7 +61,7 @@ EqStructural == IsCase => (TypeEq(st.x, st.y) <=> CanonType(st.x) = CanonType(st
 EqUnifies == IsCase /\ TypeEq(st.x, st.y) => st.u.ok
 UnifySound == IsCase /\ st.u.ok /\ ~HasBotTop(st.x) /\ ~HasBotTop(st.y)
                  => TypeEq(ApplySubst(st.x, st.u.m), ApplySubst(st.y, st.u.m))
-NoSelfBinding == IsCase /\ st.u.ok => \A n \in DOMAIN st.u.m : ~Occurs(ApplySubst(st.u.m[n], st.u.m), n)
+NoSelfBinding == IsCase /\ st.u.ok => ~CyclicSubst(st.u.m)
 \* bindings made are consistent: a variable is bound once (a map), and what it is
 \* bound to is what both sides agree on after substitution (covered by UnifySound)
 RECURSIVE SubTerms(_)
